@@ -8,12 +8,23 @@ Space  : reactant patterns with 1-3 atoms over {C, C?, C., H, O?} and bonds
 Oracle : models/ruleref.py - own electron bookkeeping decides
          balanced/unbalanced; own edit applier on a copy of the molecule gives
          the expected product set per ringref match.
+Several reactants (domains/w3_c16.py; the i-th molecule belongs to the i-th
+declared reactant, atoms of the reactants are labelled consecutively):
+  bi    : 3 x 3 one/two-atom patterns, basic edits, names r1, r2 (wave 2)
+  names : the same rules under every ordered pair of distinct reactant names
+          from a small name alphabet (declaration order != sorted order,
+          upper case, r10 against r2)
+  bi2   : first reactants of 1-2 atoms x second reactants of 2-3 atoms with
+          single and double bonds, the FULL edit alphabet of the unimolecular
+          family on the labels of either reactant
+  tri   : three reactants, every permutation of the names r1, r2, r3
 """
 import itertools
 
 from ..runner import Result
 from ..models import ringref, ruleref
 from ..domains import molecules as MD
+from ..domains import w3_c16 as W3
 
 LEVEL = 'exploration'
 ATOMS5 = ['C', 'C?', 'C.', 'H', 'O?']
@@ -26,17 +37,38 @@ BOUND = {
              'sequences: all of length <= 2 over the full edit alphabet, all of '
              'length 3 over the six basic edits; molecules M(2) C/O with '
              'radicals + 14; two-reactant rules: 3 x 3 patterns, all edit '
-             'sequences of length <= 3 over the basic edits, 8 x 8 molecule pairs',
+             'sequences of length <= 3 over the basic edits, 8 x 8 molecule pairs; '
+             'reactant names: those 3 x 3 patterns x the 11 other ordered pairs of '
+             'distinct names from {r1, r2, r10, B} x every balanced sequence of '
+             'length <= 3 and every unbalanced one of length <= 2 over the basic '
+             'edits, 5 x 5 molecule pairs; two-reactant rules with the full edit '
+             'alphabet: 2 first reactants (1, 2 atoms) x 4 second reactants (C-H, '
+             'C=C, C=C-C, C-C=C), all sequences of length <= 2 over the full '
+             'alphabet, length 3 over basic + increase order + modify to '
+             'single/double for rules of <= 3 atoms, 6 x 6 molecule pairs; '
+             'three-reactant rules: 1 x 2 x 2 patterns x the 6 permutations of the '
+             'names r1, r2, r3 x balanced sequences of length <= 3 and unbalanced '
+             'ones of length <= 2 over the basic edits, 3 x 3 x 3 molecule triples',
     'thorough': 'as quick with length-3 sequences over the full alphabet for '
                 '1-2 atom patterns, length 4 over the basic edits, triple bonds '
-                'and 4-atom chains; molecules M(3) C/O with radicals + 10'}
+                'and 4-atom chains; molecules M(3) C/O with radicals + 10; '
+                'reactant names: the 29 other ordered pairs from {r1, r2, r10, B, '
+                'a, z_9}, 8 x 8 molecule pairs; full-alphabet two-reactant rules: '
+                'length 3 for rules of <= 4 atoms; three-reactant rules as quick'}
 RULE = ('every (pattern, edit sequence) is written as rule text and read; '
         'sequences that are well defined on the evolving pattern are judged: '
         'unbalanced => RINGReaderError, balanced => a rule; every rule that '
         'reads is run on every molecule and its product sets compared with the '
         'reference applier per reference match.  Non-trivial = a judged '
         'balanced rule, an unbalanced rule the reader must reject, or a run '
-        'with at least one match')
+        'with at least one match.  Rules with several reactants: every '
+        '(patterns, reactant names, edit sequence) is written as text and '
+        'read, judged by the same bookkeeping on the concatenated pattern, and '
+        'run on every tuple of molecules; expected = one product set per '
+        'element of the cartesian product of the reference matches of the '
+        'i-th declared pattern in the i-th molecule, edits applied to the '
+        'disjoint union of the molecules; the molecule objects passed in must '
+        'stay untouched')
 ASSUMPTIONS = ['charge edits and atom-type edits are not judged (the balance '
                'clause speaks of bond and radical edits)',
                'radical := n is judged on atoms whose pattern fixes the radical '
@@ -47,7 +79,14 @@ ASSUMPTIONS = ['charge edits and atom-type edits are not judged (the balance '
                'non-bond, ...) are enumerated but not judged',
                'documented refusals (break/modify of a bond of unspecified or '
                'mismatching kind) may be rejected or accepted',
-               'canonical SMILES of unsanitised fragments identify products']
+               'canonical SMILES of unsanitised fragments identify products',
+               'rules with several reactants: the i-th molecule given to '
+               'RunReactants belongs to the i-th reactant in order of declaration, '
+               'whatever the reactants are called (reactant names are distinct); '
+               'ill-defined sequences and documented refusals (incl. break/modify '
+               'across reactants) are enumerated but not judged there',
+               'in the name and three-reactant families unbalanced sequences '
+               'longer than 2 edits are enumerated but not read']
 MANIFEST = dict(
     technique='bounded-exhaustive enumeration of rule programs x small '
               'molecules vs own electron bookkeeping and edit applier',
@@ -59,9 +98,12 @@ MANIFEST = dict(
          'product set per reference match, equal (as a multiset of canonical '
          'SMILES) to the reference edit applier, conserving the atoms of every '
          'element.',
-    note='Two-reactant rules only over a 3x3 pattern alphabet with edit '
-         'sequences up to length 3; charge and atom-type edits are outside '
-         'the bound.',
+    note='Two-reactant rules over a 3x3 pattern alphabet with basic edit '
+         'sequences up to length 3, also under every ordered pair of reactant '
+         'names from a 4-name (thorough: 6-name) alphabet; two-reactant rules '
+         'with 2-3 atom second reactants over the full edit alphabet up to '
+         'length 2 (3 on small rules); a small three-reactant family; charge '
+         'and atom-type edits are outside the bound.',
     ref='5/C16')
 
 
@@ -340,16 +382,172 @@ def judge_bi(R, a1, a2, seq, only_pair=None):
                         dict(wit, pair=[s1, s2]))
 
 
+# ------------------------------------------------- several reactants (wave 3)
+#
+# Three further families over rules with several reactants (domains/w3_c16.py).
+# The reference for all of them: the i-th molecule belongs to the i-th DECLARED
+# reactant; one product set per element of the cartesian product of the
+# reference matches; atoms of reactant i sit behind all atoms of reactants
+# 0..i-1 in the combined molecule.
+#   names : the 3 x 3 two-reactant patterns x every ordered pair of distinct
+#           reactant names
+#   bi2   : two-reactant rules with second reactants of 2-3 atoms and the full
+#           edit alphabet (modify bond, break/form <kind>, radical := n,
+#           increase order) on the labels of either reactant
+#   tri   : rules with three reactants
+
+def judge_multi(R, fam, pats, names, seq, mol_alphabet, only=None, unbalanced_maxlen=None):
+    from rdkit import Chem
+    from pgradd.RINGParser import Read
+    from pgradd.Error import RINGReaderError
+    atoms = W3.combined(pats)
+    status, balanced = ruleref.analyse(atoms, seq)
+    R.evals += 1
+    if status != 'judged':
+        # ill-defined sequences and documented refusals: not judged here
+        R.outcomes[fam + ':unjudged'] += 1
+        return
+    if not balanced and unbalanced_maxlen is not None and len(seq) > unbalanced_maxlen:
+        R.outcomes[fam + ':outside-bound(long unbalanced)'] += 1
+        return
+    text = W3.multi_text(pats, names, seq)
+    wit = dict(kind='multi', fam=fam, pats=[W3.enc_pat(p) for p in pats], names=list(names),
+               seq=[list(e) for e in seq], mols=None)
+    try:
+        q = Read(text)
+        got = 'rule'
+    except RINGReaderError:
+        got = 'RINGReaderError'
+    except Exception as e:     # noqa
+        got = 'EXC:' + type(e).__name__
+    R.nontrivial += 1
+    sig = ','.join(sorted(set(e[0] for e in seq)))
+    if fam == 'tri':
+        sig = 'any'       # one key per kind of difference
+    if not balanced:
+        R.outcomes[fam + ':unbalanced:' + got] += 1
+        if got != 'RINGReaderError':
+            R.violation('%s-read:unbalanced-%s:%s' % (fam, got, sig),
+                        '%r is unbalanced; Read gave %s' % (text, got), wit)
+        return
+    R.outcomes[fam + ':balanced:' + got] += 1
+    if got != 'rule':
+        R.violation('%s-read:balanced-%s:%s' % (fam, got, sig),
+                    '%r is balanced; Read gave %s' % (text, got), wit)
+        return
+    frs = [ringref.parse_fragment(ruleref.fragment_text(p)) for p in pats]
+    for smis in itertools.product(mol_alphabet, repeat=len(pats)):
+        if only is not None and list(smis) != list(only):
+            continue
+        ms = [Chem.MolFromSmiles(s) for s in smis]
+        hs = [Chem.AddHs(m) for m in ms]
+        comb, offs = hs[0], [0]
+        for h in hs[1:]:
+            offs.append(comb.GetNumAtoms())
+            comb = Chem.CombineMols(comb, h)
+        per = [ringref.ref_matches_g(f, ringref.G(h)) for f, h in zip(frs, hs)]
+        exp = []
+        for combo in itertools.product(*per):
+            idx = []
+            for mt, off in zip(combo, offs):
+                idx += [v + off for v in mt]
+            exp.append(ruleref.apply_edits(comb, idx, seq))
+        exp.sort()
+        R.evals += 1
+        if exp:
+            R.nontrivial += 1
+        want_el = ruleref.element_counts(hs)
+        cons = untouched = True
+        try:
+            args = tuple(Chem.Mol(m) for m in ms)
+            before = [(a.GetNumAtoms(), Chem.MolToSmiles(a)) for a in args]
+            res = q.RunReactants(args)
+            untouched = before == [(a.GetNumAtoms(), Chem.MolToSmiles(a)) for a in args]
+            gotp = sorted(ruleref.product_key(ps) for ps in res)
+            cons = all(ruleref.element_counts(ps) == want_el for ps in res)
+        except Exception as e:      # noqa
+            gotp = 'EXC:%s' % type(e).__name__
+        w2 = dict(wit, mols=list(smis))
+        if not untouched:
+            R.violation('%s-run:callers-molecule-modified:%s' % (fam, sig),
+                        '%r on %r: a molecule object passed in was modified' % (text, smis), w2)
+        if gotp == exp and cons:
+            R.outcomes['%s-run:same:%s' % (fam, 'products' if exp else 'no-match')] += 1
+            if exp and list(names) != sorted(names):
+                R.sample(dict(rule=text, molecules=list(smis), product_sets=exp[:1]), limit=1)
+            continue
+        if not cons:
+            R.violation('%s-run:atoms-not-conserved:%s' % (fam, sig),
+                        '%r on %r: a product set does not conserve the atoms' % (text, smis), w2)
+        cls = gotp if isinstance(gotp, str) else (
+            'count' if len(gotp) != len(exp) else 'products')
+        R.outcomes['%s-run:differs:%s' % (fam, cls)] += 1
+        R.violation('%s-run:%s:%s' % (fam, cls, sig),
+                    '%r on %r: reference (%s matches) %r; implementation %r' % (
+                        text, smis, ' x '.join(str(len(p)) for p in per), exp[:2],
+                        gotp if isinstance(gotp, str) else gotp[:2]), w2)
+
+
+def multi_cases(shard, tier):
+    """-> (fam, molecule alphabet, longest unbalanced sequence that is read,
+    reactant patterns, name tuples, edit sequences); the cases of the shard
+    are sequences x name tuples"""
+    fam = shard[0]
+    if fam == 'names':
+        pats = [R1S[shard[1]], R2S[shard[2]]]
+        # ('r1', 'r2') is the wave-2 family itself
+        nts = [nt for nt in W3.name_tuples(tier) if nt != ('r1', 'r2')]
+        return (fam, W3.NAME_MOLS[tier], W3.NAME_UNBALANCED_MAXLEN, pats, nts,
+                bi_sequences(W3.combined(pats)))
+    if fam == 'bi2':
+        pats = [W3.M_R1[shard[1]], W3.M_R2[shard[2]]]
+        atoms = W3.combined(pats)
+        return (fam, W3.M_MOLS, None, pats, [('r1', 'r2')],
+                W3.m_sequences(atoms, edit_alphabet(atoms, True), tier))
+    if fam == 'tri':
+        pats = [W3.T_R1[shard[1]], W3.T_R2[shard[2]], W3.T_R3[shard[3]]]
+        return (fam, W3.T_MOLS, W3.NAME_UNBALANCED_MAXLEN, pats,
+                list(itertools.permutations(W3.T_NAMES)),
+                W3.seqs_upto(W3.basic_edits(W3.combined(pats)), 3))
+    raise ValueError(shard)
+
+
 def shards(tier, seed):
     out = [('pat', i) for i in range(len(patterns(tier)))]
     for i in range(len(R1S)):
         for j in range(len(R2S)):
             out.append(('bi', i, j))
+    for i in range(len(R1S)):
+        for j in range(len(R2S)):
+            out.append(('names', i, j))
+    for i in range(len(W3.M_R1)):
+        for j in range(len(W3.M_R2)):
+            out.append(('bi2', i, j))
+    for i, j, k in itertools.product(range(len(W3.T_R1)), range(len(W3.T_R2)),
+                                     range(len(W3.T_R3))):
+        out.append(('tri', i, j, k))
     return out
 
 
 def run_shard(shard, tier):
     R = Result()
+    if shard[0] in ('names', 'bi2', 'tri'):
+        fam, mols, umax, pats, name_tuples, seqs = multi_cases(shard, tier)
+        atoms = W3.combined(pats)
+        for seq in seqs:
+            # what does not depend on the names is decided (and counted) once
+            status, balanced = ruleref.analyse(atoms, seq)
+            if status != 'judged':
+                R.evals += 1
+                R.outcomes[fam + ':unjudged'] += 1
+                continue
+            if not balanced and umax is not None and len(seq) > umax:
+                R.evals += 1
+                R.outcomes[fam + ':outside-bound(long unbalanced)'] += 1
+                continue
+            for nt in name_tuples:
+                judge_multi(R, fam, pats, nt, seq, mols, unbalanced_maxlen=umax)
+        return R
     if shard[0] == 'bi':
         a1, a2 = R1S[shard[1]], R2S[shard[2]]
         n1 = len(a1)
@@ -368,6 +566,14 @@ def run_shard(shard, tier):
 def replay(w):
     from rdkit import Chem
     R = Result()
+    if w['kind'] == 'multi':
+        fam = w['fam']
+        judge_multi(R, fam, [W3.dec_pat(p) for p in w['pats']], tuple(w['names']),
+                    [tuple(e) for e in w['seq']],
+                    W3.NAME_MOLS['thorough'] if fam == 'names' else
+                    W3.M_MOLS if fam == 'bi2' else W3.T_MOLS, only=w.get('mols') or None)
+        return dict(violates=bool(R.violations),
+                    detail='\n'.join(v['msg'] for v in R.violations) or 'holds')
     if w['kind'] == 'bi':
         conv = lambda L: [(a[0], None if a[1] is None else (a[1][0], a[1][1])) for a in L]   # noqa
         judge_bi(R, conv(w['a1']), conv(w['a2']), [tuple(e) for e in w['seq']], w.get('pair'))
